@@ -274,7 +274,7 @@ pub fn decode_seq(t: &mut Tape, max_fns: usize, max_ops: usize) -> SeqCase {
     let large = t.chance(1, 16);
     let mut hot = 0usize;
     if large {
-        let k = 65 + t.below(76);
+        let k = if t.chance(1, 10) { 257 + t.below(44) } else { 65 + t.below(76) };
         ops.push(Op::AddFns(k));
         n = k;
         hot = 3 + t.below(6);
